@@ -54,6 +54,12 @@ def gen_cases(rng, tier):
     # finding F18's witness (Props/C20: C20_tape_extract_keeps_archive_refuted): a tape holding a member named like the archive itself
     cases.append({"medium": "tape", "read": True, "self_member": True, "sources": [{"arg": "x/IN.K7", "content": {"hex": "68656c6c6f"}}], "old": None,
                   "trail": 0, "flips": 0, "mseed": 0, "verbose": False})
+    # sources named like the scratch files a 'safe save' would use beside the archive of one variant: they are sources like any other, and stay untouched
+    for med, ex, fd_ in (("tape", ".k7", None), ("disk", ".fd", True), ("disk", ".sd", False)):
+        c_ = {"medium": med, "old": None, "sources": [{"arg": "out_again" + ex + sfx, "content": {"pat": "54", "len": 40 + k}} for k, sfx in enumerate([".tmp", ".bak", "~", ".part", ".new"])] + [{"arg": "plain.bin", "content": {"hex": "41"}}]}
+        if fd_ is not None:
+            c_["is_fd"] = fd_
+        cases.append(c_)
     twice = [{"arg": "x.bin", "content": {"pat": "41", "len": 300}}, {"arg": "y.bas", "content": {"pat": "42", "len": 10}}, {"arg": "x.bin", "content": {"pat": "41", "len": 300}}]
     cases.append({"medium": "tape", "sources": twice, "old": None})
     cases.append({"medium": "disk", "is_fd": True, "sources": twice, "old": None})
@@ -182,8 +188,8 @@ def run_case(case, ctx):
                 break
             archives[vname] = cd.get(arch)
             for p, c in src_bytes.items():
-                if open(p, "rb").read() != c:
-                    bad = {"a source file was altered by create": os.path.relpath(p, cd.root)}
+                if not os.path.isfile(p) or open(p, "rb").read() != c:
+                    bad = {"a source file was altered or removed by create": os.path.relpath(p, cd.root), "variant": vname}
             if vname == "dotted":
                 if tape:
                     m = model_outcome(ctx.model.call("tar_create", verbose, fs, text_points(arch), [text_points(a) for a in args]))
